@@ -16,3 +16,19 @@ package backtrace
 //@   ensures inter_kinds: istype(node, *dataflow.ParamNode) || istype(node, *dataflow.CallNode) || istype(node, *dataflow.CallNodeArg) || istype(node, *dataflow.ClosureNode) || istype(node, *dataflow.BoundVarNode) || istype(node, *dataflow.FreeVarNode) ==> !result
 //@   ensures global_read: istype(node, *dataflow.AccessGlobalNode) && !node.(*dataflow.AccessGlobalNode).IsWrite && (cfg.SummarizeOnDemand || len(node.(*dataflow.AccessGlobalNode).Global.WriteLocations) > 0) ==> !result
 //@   ensures global_write: istype(node, *dataflow.AccessGlobalNode) && node.(*dataflow.AccessGlobalNode).IsWrite && len(node.In()) > 0 ==> !result
+
+// ---------------------------------------------------------------------------
+// C03: one iteration of the backward traversal's main loop (events are local to the
+// iteration).
+//  - a node that is a base case ends a trace: the trace is recorded (addTrace) and
+//    the node is not expanded;
+//  - the jump from a READ of a global to the places where the global is written
+//    (any function, any calling context) drops the call stack: every node pushed in
+//    such an iteration has a nil call-stack trace. (A global write node is recognised
+//    by its In() edges being followed.)
+//@ func Visitor.visit
+//@   property C03
+//@   option havoc:*
+//@   requires v != nil && s != nil && entrypoint != nil
+//@   loop 1 body base_case_reported: called(isBaseCase, _, _) && retof(isBaseCase, _, _) ==> called(addTrace, _, _, _) && !called(addNext, _, _, _, _, _, _, _, _)
+//@   loop 1 body global_read_drops_call_stack: istype(cur.Node, *dataflow.AccessGlobalNode) && !called(AccessGlobalNode.In, _) ==> !called(addNext, _, _, _, _, where(x, x.Trace != nil), _, _, _)
